@@ -570,7 +570,7 @@ int main(int argc, char **argv) {
     std::vector<long long> efforts;
     for (int e = -16; e <= 32; ++e) efforts.push_back(e);
     for (long long e : {(long long)INT_MIN, (long long)INT_MIN + 1, (long long)INT_MAX, (long long)INT_MAX - 1, 1000000LL, -1000000LL}) efforts.push_back(e);
-    int nr = a.thorough() ? 2000 : (a.search() ? 300 : 60);
+    int nr = a.thorough() ? 3000 : (a.search() ? 500 : 200);
     vh::Rng g = vh::Rng::forCase(a.seed, 1000000);
     for (int i = 0; i < nr; ++i) efforts.push_back((int)(uint32_t)g.next());
     for (long long e : efforts) {
@@ -655,7 +655,7 @@ int main(int argc, char **argv) {
       }
       R.flush();
     }
-    int nc = a.thorough() ? 5000 : (a.search() ? 1500 : 300);
+    int nc = a.thorough() ? 20000 : (a.search() ? 3000 : 1500);
     for (int i = 0; i < nc; ++i) {
       CP p(g.range(1, 9));
       std::string how;
@@ -683,7 +683,7 @@ int main(int argc, char **argv) {
 
   // ---- C, D
   {
-    int ni = a.thorough() ? 300 : (a.search() ? 100 : 25);
+    int ni = a.thorough() ? 600 : (a.search() ? 150 : 60);
     for (int i = 0; i < ni; ++i) {
       vh::Rng g = vh::Rng::forCase(a.seed, 3000000 + i);
       vc::GenOpts o;
